@@ -286,6 +286,7 @@ func isRootTest(p *Prog, f condFact) bool {
 func runC11(c *Ctx) {
 	p := c.P
 	const P = "C11"
+	runC11ChownIfChanged(c, P)
 	if ent0, err0 := p.entrySet(); err0 == nil {
 		runAuthCtxFresh(c, P, ent0.ConnLoop)
 	}
